@@ -327,6 +327,8 @@ def site_writer_conventions(ctx, rid):
                 pm = prog.parents(f)
                 uses = [x for x in ast.walk(e) if isinstance(x, ast.Attribute) and x.attr.startswith("coeffs") and isinstance(x.value, ast.Attribute) and x.value.attr == "mo"]
                 uses = [x for x in uses if not (isinstance(pm.get(id(x)), ast.Attribute) and pm[id(x)].attr in ("shape", "ndim", "dtype", "size")) and not isinstance(pm.get(id(x)), ast.Compare)]
+                # only the shape is taken: np.empty_like(C), np.zeros_like(C)
+                uses = [x for x in uses if not (isinstance(pm.get(id(x)), ast.Call) and isinstance(pm[id(x)].func, ast.Attribute) and pm[id(x)].func.attr in ("empty_like", "zeros_like", "ones_like", "shape"))]
                 if uses:
                     sites.append((e, holder))
             # keep the smallest expression per holder statement
